@@ -129,6 +129,10 @@ func (h *H) Gen(rng *rand.Rand, tier, prop string) core.Cfg {
 	if !h.retry && core.Chance(rng, 0.5) {
 		c.StopAt = core.DurBetween(rng, time.Millisecond, 3*time.Second)
 	}
+	if h.retry && core.Chance(rng, 0.25) {
+		// Router.Stop while batches are being retried: the outputs are stopped one after the other
+		c.StopAt = core.DurBetween(rng, time.Millisecond, 3*time.Second)
+	}
 	if h.retry {
 		r := &RetryCfg{
 			AttemptNum: core.Pick(rng, -3, -1, 0, 0, 1, 1, 2, 3, 5, 8, 12),
@@ -427,16 +431,26 @@ func (h *H) Run(cc core.Cfg, sim *simrt.Sim) *core.Outcome {
 		wg.Wait()
 		// quiet tail: everything that can be flushed must be flushed by now
 		tail := 2*cfg.Flush + 5*time.Second
+		stopScenario := cfg.Retry != nil && cfg.StopAt > 0
 		if cfg.Retry != nil {
 			tail += 2*cfg.Retry.DLQFlush + r.retryTail()
 			// wait until every batch has finished its attempts (bounded by horizon)
-			simrt.WaitUntil(func() bool { return r.allOutsDone() })
+			if !stopScenario {
+				simrt.WaitUntil(func() bool { return r.allOutsDone() })
+			}
 		}
-		simrt.Sleep(tail)
 		if cfg.StopAt > 0 {
 			simrt.WaitUntil(func() bool { return r.stopDone })
 		}
-		r.evaluate()
+		simrt.Sleep(tail)
+		if stopScenario {
+			// Router.Stop in the middle of retries: what is in flight at that moment is legitimately left
+			// unfinished, so only the invariants checked while the run proceeds apply (no hand-over to an
+			// output that has been stopped, no double commit, no death)
+			o.Probes["router-stop-while-retrying"]++
+		} else {
+			r.evaluate()
+		}
 		evaluated = true
 		simrt.Stop("done")
 	})
@@ -615,6 +629,7 @@ type sink struct {
 	ctx     context.Context
 	batcher *pipeline.RetriableBatcher
 	router  *pipeline.Router
+	stopped bool // Stop() has returned
 }
 
 func (s *sink) Start(_ pipeline.AnyConfig, params *pipeline.OutputPluginParams) {
@@ -658,8 +673,18 @@ func (s *sink) Start(_ pipeline.AnyConfig, params *pipeline.OutputPluginParams) 
 	})
 	s.batcher.Start(s.ctx)
 }
-func (s *sink) Stop()                 { s.batcher.Stop() }
-func (s *sink) Out(e *pipeline.Event) { s.batcher.Add(e) }
+func (s *sink) Stop() {
+	s.batcher.Stop()
+	s.stopped = true
+}
+
+func (s *sink) Out(e *pipeline.Event) {
+	if s.stopped && s.name != "main" { // the main output is fed by the harness's producers, which do not stop; the dead queue only by Router.Fail
+		// its batcher ignores the event: it will never be sent and never be committed
+		s.r.o.Violate("C09", "handed-to-stopped-output/"+s.name, "an event was handed to output %q at %v, after its Stop() had returned: the event is neither sent nor committed by anybody", s.name, simrt.SimNow())
+	}
+	s.batcher.Add(e)
+}
 
 // ---- oracles ----
 
